@@ -306,6 +306,25 @@ PROPS["C07"] = dict(
     floor=dict(quick=20000, thorough=200000),
 )
 
+PROPS["C15"] = dict(
+    level="exploration",
+    technique="rapidcheck over configuration pairs judged by an independent reference negotiation function; scripted ClientHello (structure-aware builder) against a real server with the answer parsed from the wire, and full client<->server handshakes compared through the public getters; suite singleton/pair enumerator",
+    rule=("mode S: scripted ClientHello (version 3.0..1.3 codes, 1..11 suite values incl. unknown / GREASE / duplicates / fallback and renegotiation "
+          "SCSVs, SNI, renegotiation_info, signature_algorithms with unknown codes, supported_groups incl. unknown ids, ALPN, unknown extension, "
+          "fragmented over small records) x server (6 version ranges, RSA / EC / EC-with-RSA-issuer key, KEYX/SIGN usage masks, 4 option flags, "
+          "ordered suite list of 1..12 or all 45, ALPN list); mode F: real client (version range, ordered suites, hash subset, curve set, ALPN, "
+          "SNI) x the same server space. Outcome (version, suite, ECDHE curve, signature hash, ALPN name, renegotiation_info, SNI seen, or the "
+          "fatal alert / client error) must equal the reference. non-trivial = a refusal, or >= 2 common suites; distinct = hash of the pair"),
+    assumptions=["configurations the documentation leaves open are constructed away and counted: static-ECDH suite when the client does not announce the key's curve",
+                 "server hash set and curve set are complete in generated configurations (client side varies)"],
+    targets=[dict(name="c15_negotiate", src="c15_negotiate.cpp", flavour="san", libs=SSL_LIBS, noseed=True)],
+    quick=[("c15_negotiate", "enum", dict(shards=16)),
+           ("c15_negotiate", "rc", dict(cases=24000, shards=16))],
+    thorough=[("c15_negotiate", "enum", dict(shards=16)),
+              ("c15_negotiate", "rc", dict(cases=800000, shards=16))],
+    floor=dict(quick=5000, thorough=50000),
+)
+
 # ---------------------------------------------------------------- manifest text
 HOOK_COMMITS = ["b37444c", "e1637c5"]
 NOT_APPLICABLE = {}
@@ -449,4 +468,13 @@ MANIFEST_TEXT["C07"] = dict(
           "partitions over valid, mutated and truncated inputs."),
     design_ref="DESIGN.md section 4, C07",
     note="the reference run is the library itself under another chunking (metamorphic); correctness of the outcome is the business of C04/C18/C01",
+)
+
+MANIFEST_TEXT["C15"] = dict(
+    text=("Model-based differential testing of the negotiation: a reference function written from the RFCs and the header documentation predicts "
+          "version, suite, curve, signature hash, ALPN and alerts for generated pairs of configurations; a real server is driven by scripted "
+          "ClientHellos (thousands per second, incl. values no BearSSL client would send) and real client/server pairs are compared through "
+          "their getters; all suite singletons and a fifth (quick) or all (thorough) ordered suite pairs x 3 versions x 3 key kinds are enumerated."),
+    design_ref="DESIGN.md section 4, C15",
+    note="reference function independent of the T0 code; OpenSSL clients are not used here (covered in C01)",
 )
